@@ -249,6 +249,46 @@ def direct_ref_of(o):
     return None
 
 
+def direct_version_oracle(case):
+    """C03/C09, read off the trace itself: a direct handle carries the archetype version it was issued at
+    (`todirect` shows it); `len` shows the version a storage is at. A lookup through a direct handle whose version
+    differs from the version the addressed storage was just seen at (no operation in between) must not accept it.
+    Returns the index of the first op that violates this, or None."""
+    w = WORLDS[case['world']]
+    dver = []            # version of every recorded direct handle, None when unknown
+    seen = None          # (op index, arch index, version) of the latest `len` observation, valid only for the next ops that are lookups
+    for i, (o, ob) in enumerate(zip(case['ops'], case['obs'])):
+        if ob is None:
+            break
+        k = o[0]
+        if k == 'todirect':
+            if ob and ob[0] == 1:
+                dver.append(ob[2])
+            continue_seen = True
+        elif k in ('find', 'iter', 'iterd'):
+            n_before = len(dver)
+            org = direct_origins(w, case['ops'][:i + 1], case['obs'][:i + 1])
+            dver += [None] * (len(org) - len(dver))
+            continue_seen = (k == 'find')
+        else:
+            continue_seen = k in ('probe', 'len')
+        if k == 'len' and ob and len(ob) >= 4:
+            seen = (i, o[1], ob[3])
+            continue
+        if k in ('probe', 'find') and seen is not None:
+            kind = o[2] if k == 'probe' else o[3]
+            ref = o[4] if k == 'probe' else o[5]
+            if kind == 'd' and ref[0] == 'd' and ref[1] < len(dver) and dver[ref[1]] is not None and dver[ref[1]] != seen[2]:
+                # which archetype does the key address? for a world-level lookup its packed id, else the named archetype
+                accepted = bool(ob) and ob[0] == 1
+                lvl = o[1] if k == 'probe' else 'w'
+                if accepted and (lvl == 'w' or lvl == ('a', seen[1])):
+                    return i
+        if not continue_seen:
+            seen = None
+    return None
+
+
 def case_key(case):
     return hashlib.sha256(('\n'.join(O.to_rust(o) for o in case['ops'])).encode()).hexdigest()
 
@@ -646,6 +686,18 @@ def check(pid, tier, seed):
                                       reason=text + ' (assertion of the harness; the process then exits)', failing_op_index=n - 1,
                                       ops=[O.to_rust(o) for o in c['ops'][:n]], ops_struct=c['ops'][:n], observed=c['obs'][:n], died=c.get('died'), broken=broken))
         violations.append('VIOLATION property=%s replay=%s' % (pid, path))
+    # 1c. direct handles and versions (C03, C09): decided from the trace's own observations
+    if pid in ('C03', 'C09') and not violations:
+        for r in all_results:
+            bad = direct_version_oracle(r['case'])
+            if bad is not None:
+                c = r['case']
+                path = write_replay(pid, dict(property=pid, kind='specification-violation', world=c['world'], config=c['config'], seed=seed, stream=c.get('stream'),
+                                              reason='a direct handle whose version differs from the version its archetype was just observed at (the preceding `len`) was accepted',
+                                              failing_op_index=bad, ops=[O.to_rust(o) for o in c['ops'][:bad + 1]], ops_struct=c['ops'][:bad + 1],
+                                              observed=c['obs'][:bad + 1], oracle='direct_version', broken=broken))
+                violations.append('VIOLATION property=%s replay=%s' % (pid, path))
+                break
     # 2. model / implementation disagreements, decl mismatches, deaths
     diffs = [r for r in all_results if r['diff'] is not None or r['case'].get('died') or r['case'].get('decl_mismatch')]
 
@@ -882,6 +934,13 @@ def replay(path):
         k = direct_ref_of(c['ops'][r['spec']['index']])
         org = direct_origins(w, c['ops'], c['obs'])
         c07_direct = k is not None and k < len(org) and org[k] == 'iterd'
+    if j.get('oracle') == 'direct_version':
+        bad = direct_version_oracle(c)
+        print('direct-version oracle:', 'violated at op %s' % bad if bad is not None else 'satisfied')
+        if bad is not None:
+            print('VIOLATION property=%s replay=%s' % (pid, path))
+            return 1
+        return 0
     if j.get('died') and c.get('died') and 'harness: ' in c['died']:
         print('the harness asserts:', c['died'][-300:])
         print('VIOLATION property=%s replay=%s' % (pid, path))
